@@ -1,4 +1,5 @@
 import OpusModel.SilkCoreFrame
+import OpusModel.SilkPipe
 import Driver.Util
 /-! Suite `silkcore` (property C03, slice SilkCore; line protocol DESIGN.md §4).
 
@@ -35,6 +36,26 @@ def parseArgs (a : List String) : Option (DecState × FrameIn) :=
     if (s.fsKHz = 8 ∨ s.fsKHz = 12 ∨ s.fsKHz = 16) ∧ (s.nbSubfr = 2 ∨ s.nbSubfr = 4) then some (s, f) else none
   | _ => none
 
+/-! ops `pipe-*` (slice SilkPipe): `pipe-stream <fs_kHz> <Fs_API> <packet> …` — a fresh mono decoder, every packet through
+    `Opus.SilkPipe.silkOnlyDecode`; answer `PCM <pcm of packet 0>;<pcm of packet 1>;…`, ended by `ERR@k:<outcome>` if packet `k` is not `.ok`. -/
+def pipeLoop (apiHz : Nat) : Opus.SilkPipe.PipeSt → Nat → List Bytes → List String → String
+  | _, _, [], acc => "PCM " ++ ";".intercalate acc.reverse
+  | S, k, p :: ps, acc =>
+    match Opus.SilkPipe.silkOnlyDecode apiHz S p with
+    | .ok (S', pcm) => pipeLoop apiHz S' (k + 1) ps (intList pcm :: acc)
+    | r => "PCM " ++ ";".intercalate (s!"ERR@{k}:{resStr (fun _ => "OK") r}" :: acc).reverse
+
+def pipeStream (args : List String) : String :=
+  match args with
+  | fs :: api :: pkts =>
+    match parseNat fs, parseNat api, pkts.mapM parseHex with
+    | some fs, some api, some pk =>
+      match Opus.SilkPipe.initPipe fs api with
+      | .ok S => pipeLoop api S 0 pk []
+      | _ => "bad-op"
+    | _, _, _ => "bad-op"
+  | _ => "bad-op"
+
 def handle (args : List String) : String :=
   match args with
   | "frame" :: a =>
@@ -53,6 +74,7 @@ def handle (args : List String) : String :=
     match parseArgs a with
     | some (s, f) => resStr (fun (o : FrameOut) => s!"ub={o.core.ub}") (frameGood s f)
     | none => "bad-op"
+  | "pipe-stream" :: a => pipeStream a
   | _ => "bad-op"
 
 end Driver.SuiteSilkCore
